@@ -91,13 +91,15 @@ def step_job(prop, cls, method, doms, kwdoms, tier, listeners, want, name_prefix
              timeout_ms=120000, part=None):
     """want: which assertion families to discharge: 'I1','I2','I3','types','frame'"""
     t_all = time.time()
-    u, p = M.universe(tier, cls, method)
+    ns_policy = listeners.split(":")[1] if listeners.startswith("manager:") else None
+    u, p = M.universe(tier, cls, method, ns_policy)
     doms = [tuple(d) if isinstance(d, list) else d for d in _detuple(doms)]
     kwdoms = {k: _detuple(v) for k, v in (kwdoms or {}).items()}
-    prep = {"none": M.listeners_none, "recorder": M.listeners_recorder}[listeners]
+    prep = M.listeners_manager(ns_policy) if ns_policy else \
+        {"none": M.listeners_none, "recorder": M.listeners_recorder}[listeners]
     base_name = "%s/%s.%s[%s]" % (name_prefix, cls, method, listeners)
     try:
-        run = M.run_mutator(u, p["seq"], cls, method, doms, kwdoms, prep=prep)
+        run = M.run_mutator(u, p["seq"], cls, method, doms, kwdoms, prep=prep, ns_policy=ns_policy)
     except Unsupported as e:
         return [result(base_name, INCONCLUSIVE, "E1/symheap", detail="Unsupported: %s" % e,
                        wall_s=time.time() - t_all)]
@@ -132,6 +134,14 @@ def step_job(prop, cls, method, doms, kwdoms, tier, listeners, want, name_prefix
     if "frame" in want and tw["refusal_reachable"] == "sat":
         for g, cs in spec.frame_groups(run["pre"], run["post"]).items():
             groups[g] = ("frame", [ok_path, B(ctx.exc)], NOT(AND(*cs)))
+        if ns_policy:
+            from vf.e1 import nsmodel as NS
+            for g, cs in NS.frame(run["pre"], run["post"]).items():
+                groups[g] = ("frame", [ok_path, B(ctx.exc)], NOT(AND(*cs)))
+    if "I4" in want and ns_policy:
+        from vf.e1 import nsmodel as NS
+        for g, cs in NS.i4(run["post"], ns_policy).items():
+            groups[g] = ("inv", [ok_path], NOT(AND(*cs)))
     if "perm" in want and method.startswith("set:") and method[4:] in PERM_FIELDS.get(cls, {}):
         groups["perm:%s.%s" % (cls, method[4:])] = ("perm", [ok_path], NOT(perm_goal(run, cls, method[4:])))
     if listeners == "recorder" and ({"mirror", "before", "phantom"} & set(want)):
@@ -152,6 +162,9 @@ def step_job(prop, cls, method, doms, kwdoms, tier, listeners, want, name_prefix
             emitted = OR(*[g_ for (g_, k_, a_, s_) in evs if not k_.startswith("create_")])
             groups["phantom:no-announcement-for-a-refused-change"] = (
                 "phantom", [ok_path, B(ctx.exc)], emitted)
+    if getattr(ctx, "impossible", None):
+        groups["model:impossible-combinations-unreachable"] = (
+            "inv", [], OR(*[c for c, _ in ctx.impossible]))
     env = FindingEnv(run).namespace()
     if part:
         keys = sorted(groups)
@@ -271,3 +284,106 @@ def validation_job(prop, seed, trials, budget_s):
                    "interpreter == real code on %d random concrete steps (%d skipped); e.g. %s" % (
                        stats["ok"], stats["skip"], sample[:2]),
                    bounds={"seed": seed, "trials": trials})]
+
+
+# ---- C07 ---------------------------------------------------------------------------------------
+CLONE_U = {
+    "small": dict(Netlist=1, Library=1, Definition=2, Port=2, Cable=1, Wire=2, Instance=2, InnerPin=2, OuterPin=4),
+    "Definition": dict(Netlist=1, Library=1, Definition=2, Port=2, Cable=1, Wire=2, Instance=2, InnerPin=2, OuterPin=4),
+    "Library": dict(Netlist=1, Library=2, Definition=2, Port=1, Cable=1, Wire=1, Instance=2, InnerPin=1, OuterPin=2),
+    "Netlist": dict(Netlist=1, Library=1, Definition=2, Port=1, Cable=1, Wire=1, Instance=2, InnerPin=1, OuterPin=2),
+}
+
+
+def shape_from_json(sh):
+    return {(k.split("/")[0], int(k.split("/")[1]), k.split("/")[2]): v for k, v in (sh or {}).items()} \
+        if sh is not None else None
+
+
+def clone_job(root_cls, tier, part=None, timeout_ms=180000, self_slot=None, shape=None, shape_name=""):
+    from vf.e1 import clonespec
+    from vf.e1.heap import Universe
+    t_all = time.time()
+    live = dict(CLONE_U.get(root_cls, CLONE_U["small"]))
+    if tier == "thorough" and root_cls in ("Library", "Netlist"):
+        live.update(Port=2, InnerPin=2, OuterPin=4, Wire=2)
+    u = Universe(live, dict(live), 2)
+    base_name = "C07/%s.clone%s%s" % (root_cls, "" if self_slot is None else "{root=slot%d}" % self_slot,
+                                      "{shape=%s}" % shape_name if shape_name else "")
+    try:
+        run = M.run_mutator(u, 1, root_cls, "clone", [], {}, prep=M.listeners_none, self_slot=self_slot,
+                            shape=shape_from_json(shape))
+    except Unsupported as e:
+        return [result(base_name, INCONCLUSIVE, "E1/symheap", detail="Unsupported: %s" % e)]
+    ctx = run["ctx"]
+    A = list(run["assumptions"])
+    funcs = sorted(fn_ident(f) for f in ctx.funcs_seen)
+    bounds = dict(u.describe(), root=root_cls, tier=tier, shape=shape or "symbolic containment")
+    ok = [B(NOT(ctx.bound)), B(NOT(ctx.exc))]
+    tw = {"pre_sat": M.check(A, True, 60000)[0], "returns_normally": M.check(A, NOT(ctx.exc), 60000)[0]}
+    if tw["returns_normally"] != "sat":
+        return [result(base_name, VACUOUS if tw["returns_normally"] == "unsat" else INCONCLUSIVE,
+                       "E1/symheap", twins=tw, bounds=bounds, detail="normal return not shown reachable")]
+    memo = ctx.created_dicts[0]
+    from vf.e1.vals import raw_ref
+    groups = {}
+    for g, cs in clonespec.clone_groups(run["pre"], run["post"], root_cls, run["self_ref"].t,
+                                        raw_ref(run["ret"]), memo, root_cls == "Netlist").items():
+        groups[g] = ("clone", ok, NOT(AND(*cs)))
+    for g, cs in spec.inv_groups(run["post"]).items():
+        if cs:
+            groups["clone:well-formed-afterwards/" + g] = ("inv", ok, NOT(AND(*cs)))
+    keys = sorted(groups)
+    if part:
+        keys = [k for j, k in enumerate(keys) if j % part[1] == part[0]]
+    out = []
+    for g in keys:
+        kind, extra, goal = groups[g]
+        oname = "%s/%s" % (base_name, g)
+        known = findings_for("C07", oname)
+        excl, nq, ts, hits = [], 0, 0.0, []
+        status, detail, cex, rp = None, "", None, None
+        env = FindingEnv(run).namespace()
+        for rnd in range(5):
+            st, dt, mdl = M.check(A + extra + excl, goal, timeout_ms)
+            nq += 1
+            ts += dt
+            if st == "unsat":
+                status, detail = DISCHARGED, "unsat" + (" after excluding known finding(s)" if excl else "")
+                break
+            if st != "sat":
+                status, detail = INCONCLUSIVE, "solver answered %s after %.0fs" % (st, dt)
+                break
+            rp = make_replay("C07", oname, run, mdl, root_cls, "clone", "none", "clone", g, tier)
+            rp["check"]["whole_netlist"] = root_cls == "Netlist"
+            try:
+                viol, txt = replay.run_replay(rp)
+            except Exception:
+                viol, txt = False, "replay crashed: " + traceback.format_exc()[-500:]
+            matched = None
+            for f in known:
+                try:
+                    pred = eval(f["match"], dict(env))
+                    if replay.mval(mdl, B(pred)) is True:
+                        matched = (f, pred)
+                        break
+                except Exception as e:
+                    detail = "finding predicate error: %s" % e
+            if not viol:
+                status, detail = ERROR, "counterexample did not reproduce on the real code: %s" % txt
+                break
+            if matched:
+                hits.append((matched[0], txt))
+                excl.append(B(NOT(matched[1])))
+                continue
+            status, cex, detail = VIOLATED, rp["call"], txt
+            break
+        else:
+            status, detail = ERROR, "too many exclusion rounds"
+        for f, txt in hits[:1]:
+            out.append(result(oname + "#" + f["id"], KNOWN, "E1/symheap", finding=f["id"],
+                              detail="%s (e.g. %s)" % (f["what"], txt[:200]), queries=1, bounds=bounds))
+        out.append(result(oname, status, "E1/symheap", queries=nq, solver_s=ts, twins=tw, bounds=bounds,
+                          functions=funcs, detail=detail, cex=cex, replay=rp if status == VIOLATED else None,
+                          paths=1, wall_s=time.time() - t_all))
+    return out
